@@ -3,7 +3,7 @@ C12 - delimited data round-trips through write and read for every accepted forma
 """
 import ast
 
-from ..absint import AbsRaise, Chooser, ClassRef, GenVal, Interp, Obj, Opaque, exc_name
+from ..absint import AbsRaise, Atom, Chooser, ClassRef, GenVal, Interp, Obj, Opaque, exc_name
 from ..model import dotted, walk_own
 from ..tablekit import decide, decide_kinds, stub, where_of
 from ..world import World
@@ -53,6 +53,39 @@ def _run_reader_writer(model, ch, attributes):
         pass
     interp.instantiate(ClassRef(model.cls("cutplace.rowio.DelimitedRowWriter")), [stream, data_format], {})
     return seen, stream
+
+
+def rule_every_csv_row_is_passed_on(ctx, rule_id="O12.9"):
+    """Round 11: delimited_rows hands on every row the csv reader yields, in order and unchanged - also the row without
+    items that the csv module reports for a blank line (it is a row of the data: it has a number, it is rejected for its
+    item count, and every row after it keeps its own number)."""
+    model = ctx.model
+    ctx.res.minimum(rule_id, 1)
+
+    def cell(ch):
+        position = ch.choose("position of the row without items", ["none", 0, 1, 2])
+        rows = [[Atom("a", "a")], [Atom("b", "b"), Atom("c", "c")]]
+        if position != "none":
+            rows.insert(position, [])
+
+        def csv_reader(interp, args, kwargs):
+            return [list(row) for row in rows]
+
+        interp = Interp(model, ch, externals={"csv.reader": csv_reader})
+        world = World(model, interp, ch)
+        data_format = world.data_format("delimited", _item_delimiter=",", _quote_character='"', _escape_character='"', _quoting=0,
+                                        _skip_initial_space=False, _line_delimiter="any")
+        generator = interp.call_function(model.func("cutplace.rowio.delimited_rows"), [world.stream(), data_format], {}, None)
+        try:
+            actual = [list(row) if isinstance(row, (list, tuple)) else row for row in interp.iterate(generator)]
+        except AbsRaise as raised:
+            return ("blank line at %s" % position, "raise " + exc_name(raised.value), "the rows of the csv reader")
+        same = len(actual) == len(rows) and all(isinstance(a, list) and len(a) == len(b) and all(x is y for x, y in zip(a, b))
+                                                for a, b in zip(actual, rows))
+        return ("blank line at %s" % position, "the rows of the csv reader" if same else "%d of %d rows: %r" % (len(actual), len(rows), actual),
+                "the rows of the csv reader")
+
+    decide(ctx, rule_id, "delimited_rows passes on every row of the csv reader", "cutplace.rowio.delimited_rows", cell, min_cells=4)
 
 
 def rule_dialect(ctx):
@@ -287,4 +320,4 @@ def rule_rows_end_with_the_declared_line_delimiter(ctx):
     protocol.writer_table(ctx, "O14.1", {"reset", "delimiter"}, "delimited")
 
 
-RULES = [rule_rows_end_with_the_declared_line_delimiter, rule_dialect, rule_accepted_configurations, rule_newline, rule_quoting_modes, rule_write_rows_agrees_with_write_row, rule_field_size_limit, rule_writers_close_their_files, rule_module_state]
+RULES = [rule_every_csv_row_is_passed_on, rule_rows_end_with_the_declared_line_delimiter, rule_dialect, rule_accepted_configurations, rule_newline, rule_quoting_modes, rule_write_rows_agrees_with_write_row, rule_field_size_limit, rule_writers_close_their_files, rule_module_state]
